@@ -70,6 +70,18 @@ META = "tantivy::core::META_FILEPATH"
 MANAGED = "tantivy::core::MANAGED_FILEPATH"
 
 
+_SYNC = {}
+
+
+def sync_events(prog):
+    """callee names that count as 'the directory was synced': Directory::sync_directory (any impl)
+    and every wrapper that must-passes it on all Ok paths (Min et al.'s wrapper rule)"""
+    if id(prog) not in _SYNC:
+        base = family(prog, D + "sync_directory")
+        _SYNC[id(prog)] = set(base) | must_closure(prog, base)
+    return _SYNC[id(prog)]
+
+
 def meta_publishers(prog):
     return publish_sites(prog, META)
 
@@ -77,7 +89,7 @@ def meta_publishers(prog):
 def r1(rep, prog):
     R = "C01-R1"
     from ..model import feasible_edges
-    sync = family(prog, D + "sync_directory")
+    sync = sync_events(prog)
     aw = family(prog, D + "atomic_write")
     pubs = meta_publishers(prog)
     if not rep.check(len(pubs) >= 1, R, "meta.json publisher found", "%s" % [short(p) for p in pubs], "cannot establish: no call to Directory::atomic_write with META_FILEPATH found"):
